@@ -102,30 +102,30 @@ def relevant_axioms(axioms, formulas):
     return [ax for ax, _, _ in info if ax.get_id() in chosen]
 
 
-def generate(contract, source_root=None):
+def generate(contract, source_root=None, extra_requires=None):
     """-> list of (variant_name, Exec) with obligations generated"""
     variants = contract.variants or [{}]
     out = []
     for i, v in enumerate(variants):
+        if extra_requires:
+            v = dict(v, requires=list(v.get("requires", [])) + list(extra_requires))
         ex = Exec(contract, v, source_root=source_root)
         ex.run()
         out.append((v.get("name", f"v{i}") if contract.variants else "", ex))
     return out
 
 
-def verify(key, source_root=None, keep_smt=False):
+def _prepare(key, source_root=None, keep_smt=False, extra_requires=None):
+    """generate obligations for one contract -> (FnReport, jobs, feas_jobs, meta)"""
     c = FUNCS[key]
     rep = FnReport(key)
-    t0 = time.time()
+    rep.t0 = time.time()
     try:
-        runs = generate(c, source_root)
+        runs = generate(c, source_root, extra_requires)
     except (OutOfSubset, ContractError, LookupError) as e:
         rep.error = (type(e).__name__, str(e))
-        rep.wall = time.time() - t0
-        return rep
-    jobs = []
-    feas_jobs = []
-    meta = {}
+        return rep, [], [], {}
+    jobs, feas_jobs, meta = [], [], {}
     for vname, ex in runs:
         rep.sha = hashlib.sha256(ex.segment.encode()).hexdigest()[:16]
         rep.paths += ex.paths
@@ -134,31 +134,51 @@ def verify(key, source_root=None, keep_smt=False):
         gh = ex.global_hyps()
         seen_pc = {}
         for n, ob in enumerate(ex.obls):
-            name = f"{vname + ':' if vname else ''}{ob.name}#{n}"
+            name = f"{key}|{vname + ':' if vname else ''}{ob.name}#{n}"
             rel = relevant_axioms(gh, ob.hyps + [ob.goal])
             smt = D.to_smt2(rel + ob.hyps, ob.goal)
             jobs.append((name, smt, True))
             pckey = tuple(h.get_id() for h in ob.hyps)
             if pckey not in seen_pc:
-                seen_pc[pckey] = f"{vname}:pc{len(seen_pc)}"
+                seen_pc[pckey] = f"{key}|{vname}:pc{len(seen_pc)}"
                 feas_jobs.append((seen_pc[pckey], D.to_smt2(relevant_axioms(gh, ob.hyps) + ob.hyps, z3.BoolVal(False))))
             meta[name] = dict(kind=ob.kind, lineno=ob.lineno, path=" ".join(ob.path), variant=vname, pc=seen_pc[pckey], smt=smt if keep_smt else None)
-    feas = D.run_jobs(feas_jobs, D.feasible_one)
-    res = D.run_jobs(jobs)
-    for name, _, _ in jobs:
-        r = res[name]
-        m = meta[name]
-        entry = dict(name=name, result=r["result"], backend=r["backend"], ms=r["ms"], kind=m["kind"], lineno=m["lineno"], path=m["path"], variant=m["variant"])
-        if r.get("model"):
-            entry["model"] = r["model"][:4000]
-        if r.get("why"):
-            entry["why"] = r["why"]
-        if m["smt"]:
-            entry["smt"] = m["smt"]
-        if feas[m["pc"]][1] == "unsat":
-            entry["infeasible"] = True
-            rep.infeasible.append(entry)
-        else:
-            rep.obligations.append(entry)
-    rep.wall = time.time() - t0
-    return rep
+    return rep, jobs, feas_jobs, meta
+
+
+def verify_many(keys, source_root=None, keep_smt=False, extra_requires=None):
+    """verify several contracts with one solver pool.  extra_requires: {key: [clauses]} or None"""
+    prepared = []
+    all_jobs, all_feas = [], []
+    for key in keys:
+        er = (extra_requires or {}).get(key) if isinstance(extra_requires, dict) else extra_requires
+        rep, jobs, feas_jobs, meta = _prepare(key, source_root, keep_smt, er)
+        prepared.append((rep, jobs, meta))
+        all_jobs += jobs
+        all_feas += feas_jobs
+    results = D.run_mixed(all_feas, all_jobs)
+    out = []
+    for rep, jobs, meta in prepared:
+        for name, _, _ in jobs:
+            r = results[name]
+            m = meta[name]
+            entry = dict(name=name.split("|", 1)[1], result=r["result"], backend=r["backend"], ms=r["ms"], kind=m["kind"], lineno=m["lineno"],
+                         path=m["path"], variant=m["variant"])
+            if r.get("model"):
+                entry["model"] = r["model"][:4000]
+            if r.get("why"):
+                entry["why"] = r["why"]
+            if m["smt"]:
+                entry["smt"] = m["smt"]
+            if results[m["pc"]][1] == "unsat":
+                entry["infeasible"] = True
+                rep.infeasible.append(entry)
+            else:
+                rep.obligations.append(entry)
+        rep.wall = time.time() - rep.t0
+        out.append(rep)
+    return out
+
+
+def verify(key, source_root=None, keep_smt=False, extra_requires=None):
+    return verify_many([key], source_root, keep_smt, extra_requires)[0]
